@@ -50,6 +50,8 @@ declarations:
 - decl: class Cls
   declarations:
   - decl: Cls(int v)
+  - decl: Cls(const std::string & s)
+  - decl: Cls()
   - decl: ~Cls()
   - decl: int add(int a)
   - decl: int get() const
@@ -80,7 +82,7 @@ double f27(double x, int n = 1);
 int f27(const std::string &s, int n = 1);
 long long f23(long long a);
 long f24(long a, size_t n);
-class Cls { public: int value; explicit Cls(int v); ~Cls(); int add(int a); int add(const std::string &s); int get() const; void set(int v); int scale(int k = 2); int mix(int a, double b); };
+class Cls { public: int value; explicit Cls(int v); explicit Cls(const std::string &s); Cls(); ~Cls(); int add(int a); int add(const std::string &s); int get() const; void set(int v); int scale(int k = 2); int mix(int a, double b); };
 #endif
 """
 
@@ -107,6 +109,8 @@ int f27(const std::string &s, int n) { IN("f27(const std::string&,int)"); vt_str
 long long f23(long long a) { IN("f23(long long)"); vt_int((long)a); vt_end(); long long rv = a * 2 + 1; OUT("f23(long long)"); vt_int((long)rv); vt_end(); return rv; }
 long f24(long a, size_t n) { IN("f24(long,size_t)"); vt_int(a); vt_int((long)n); vt_end(); long rv = a + (long)n; OUT("f24(long,size_t)"); vt_int(rv); vt_end(); return rv; }
 Cls::Cls(int v) : value(v) { IN("Cls::Cls(int)"); vt_int(v); vt_end(); OUT("Cls::Cls(int)"); vt_obj(this); vt_end(); }
+Cls::Cls(const std::string &s) : value((int)s.size() + 50) { IN("Cls::Cls(const std::string&)"); vt_str(s.c_str(), (long)s.size()); vt_end(); OUT("Cls::Cls(const std::string&)"); vt_obj(this); vt_end(); }
+Cls::Cls() : value(-7) { IN("Cls::Cls()"); vt_end(); OUT("Cls::Cls()"); vt_obj(this); vt_end(); }
 Cls::~Cls() { }
 int Cls::add(int a) { IN("Cls::add(int)"); vt_obj(this); vt_int(a); vt_end(); int rv = value + a; OUT("Cls::add(int)"); vt_int(rv); vt_end(); return rv; }
 int Cls::add(const std::string &s) { IN("Cls::add(const std::string&)"); vt_obj(this); vt_str(s.c_str(), (long)s.size()); vt_end(); int rv = value + 100 * (int)s.size(); OUT("Cls::add(const std::string&)"); vt_int(rv); vt_end(); return rv; }
@@ -247,7 +251,8 @@ FUNCS = [
     ("f27", "module", 0, [("f27(double,int)", ["dbl", "int"], "dbl", 1), ("f27(const std::string&,int)", ["str", "int"], "int", 1)]),
     ("f23", "module", 0, [("f23(long long)", ["int"], "int", 0)]),
     ("f24", "module", 0, [("f24(long,size_t)", ["int", "int"], "int", 0)]),
-    ("Cls", "module", 0, [("Cls::Cls(int)", ["int"], "obj", 0)]),
+    ("Cls", "module", 0, [("Cls::Cls(int)", ["int"], "obj", 0), ("Cls::Cls(const std::string&)", ["str"], "obj", 0),
+                          ("Cls::Cls()", [], "obj", 0)]),
     ("add", "Cls.metatable", 1, [("Cls::add(int)", ["int"], "int", 0), ("Cls::add(const std::string&)", ["str"], "int", 0)]),
     ("get", "Cls.metatable", 1, [("Cls::get()", [], "int", 0)]),
     ("set", "Cls.metatable", 1, [("Cls::set(int)", ["int"], "none", 0)]),
